@@ -522,7 +522,7 @@ func Build(c Cfg, id int) *sfnt.Font {
 	case "name":
 		bigNames(f)
 	}
-	tuneCFF(f, c.CffIdx, c.IdxLen)
+	tuneCFF(f, c.CffIdx, c.IdxLen, c.Group == "index")
 	return f
 }
 
